@@ -44,9 +44,70 @@ CLAIMED = {
          "All 40^k strings for k <= 4 (quick; plus 20^5) or k <= 6 (thorough) and random longer / arbitrary Unicode strings: lexer terminates, tokens non-empty, contiguous, on char boundaries, covering the input; parse_root succeeds and its leaves are exactly the tokens (start, end, kind).",
          "Uses the doc-hidden public modules anything::syntax::{lexer,parser}; a watchdog turns non-termination into exit 2 (inconclusive) and a token-count limit into a violation.",
          "DESIGN.md 4/C12"),
+
+ "C02": ("exploration",
+         PBT + ": pairs of unit spellings constructed for equal / perturbed dimension vectors vs a hand-written dimension table and exact factor arithmetic",
+         "Commensurable pairs are built by construction (free first spelling; second = random derived units plus the residual in base units, which reaches spellings whose base powers cancel: J/N, V*A, C/s), incommensurable pairs by perturbing the dimension; forms + - to and the plain-number forms in both operand orders; success iff the reference dimensions are equal, exact value, result unit checked for casts and plain-number forms.",
+         "Dimensions come from the hand-written table; per-unit factors are the tool's own (observed once with 86 casts, judged by C05). Words the tool does not read as declared are excluded (C05 judges them).",
+         "DESIGN.md 4/C02"),
+ "C03": ("exploration",
+         PBT + " plus an exhaustive prefix x unit x power grid: conversion families (direct, there-and-back, via intermediate, scaled) vs the product of single-unit factors and powers of ten",
+         "Each family of commensurable spellings is cast directly, there and back, via an intermediate unit, with scaled input and scaled output; all must equal x*s(U1)/s(U2) with s the product of observed single-unit factors and 10^(prefix*power); the grid `1 <prefix><name>^n to <name>^n` = 10^(e*n) is complete over every prefixed word read as declared and n in -3..3.",
+         "Single-unit factors are observed from the tool (C05 judges them against the standards); prefix exponents come from the SI brochure table in the harness.",
+         "DESIGN.md 4/C03"),
+ "C04": ("exploration",
+         PBT + ": expression trees over quantities vs reference evaluation on (SI value, dimension vector) pairs, result normalised through the Compound mirror",
+         "Trees with * / ^n (n -3..3) over compound, derived, prefixed, powered and cancelling unit leaves; the tool's result, whatever unit it displays, is normalised by the harness's own arithmetic and must have exactly the reference SI value and dimension; no unit entry with power zero; division by a zero quantity and 0^-n must be errors.",
+         "Trusts the Compound serialisation mirror (serde_cbor) and the observed factor table.",
+         "DESIGN.md 4/C04"),
+ "C09": ("exploration",
+         PBT + ": conversion chains vs the defining affine formulas on exact rationals; not-alone class vs interval conversion or refusal",
+         "Chains of up to four conversions among K, °C, °F (both spellings) must end where K = C + 273.15, C = (F - 32)*5/9 say, exactly; a scale with a power other than one or combined with other units must be refused or converted as an interval, never shifted by a zero point.",
+         "Formulas are written in the harness from the definitions; no prefixes on temperature scales.",
+         "DESIGN.md 4/C09"),
+ "C11": ("exploration",
+         PBT + " (token soups, mutated well-formed expressions, ASCII noise, arbitrary Unicode) under a validity predicate, in a debug-assertion and a release build, plus a sample through the real binary",
+         "Every input, after a sanitiser that enforces the stated size bounds, must parse, produce a terminating sequence of results, each a displayable value or an error with a message and a range inside the input on char boundaries; no panic in either build profile; sampled inputs also go through the `any` binary (exit 0, no panic).",
+         "A 30 s watchdog turns a hang into exit 2. The release profile runs as a child process of the same harness and its counts are merged.",
+         "DESIGN.md 4/C11"),
+ "C13": ("exploration",
+         PBT + ": metamorphic field laws, both sides evaluated by the tool and compared after SI normalisation; operands include every typable fact phrase",
+         "Seven law instances per generated triple (commutativity, associativity, distributivity, a-a, a/a) over literals with arbitrary unit spellings and facts decoded by the harness from db/*.bin.gz; both sides must be values with equal SI value and dimension.",
+         "Plain numbers and dimensionless quantities carrying a unit are never mixed in one triple (a plain number adopts its partner's unit, which is C02's rule, not a field law).",
+         "DESIGN.md 4/C13"),
+ "C14": ("exploration",
+         "history-based testing: repeated index builds under varied schedules (threads, CPU pinning, background load) and on-disk/reopen/rebuild sessions, invariant = all sessions agree on every query",
+         "26 (quick) to ~200 (thorough) sessions answer ~2000-10000 queries (every fact's words, single words, prefixes, word pairs); every query must get the same constant in all sessions. Interleavings of tantivy's worker threads are sampled by repetition, pinning and load, not enumerated; this is evidence, not proof.",
+         "The schedule of the indexing threads is not owned by the harness.",
+         "DESIGN.md 4/C14, 6"),
+ "C15": ("fault_enumeration",
+         "fault injection over generated histories: prior directory state x crash point (cfg-guarded process aborts) x follow-up starts, oracle = answers of a fresh in-memory database and meta.json contents",
+         "All 10 prior states x all 8 named crash points with a completing follow-up are enumerated, plus boundary document counts and 500 (quick) / 6000 (thorough) random histories of up to 4 starts; every completing start must answer like a fresh in-memory database and record {current version, current hash}; a crash that leaves meta.json claiming current must not be followed by a wrong answer.",
+         "Crash = process abort at a hook point between the rebuild steps (hook commit in /repo, cfg anything_verif); torn single writes are modelled only as truncated/garbage meta.json prior states.",
+         "DESIGN.md 4/C15, 7"),
+ "C16": ("exploration",
+         "exhaustive enumeration of the shipped data (all 777 typable constants, their own word order and permutations) against a validity predicate on the returned constant",
+         "Every typable shipped constant is asked for by its own words (and 12/40 permutations): one value, one description with that phrase, the returned constant carries all asked words, is complete (description, resolvable source) and its value/unit are the result.",
+         "The harness decodes db/*.bin.gz itself; 101 constants whose words cannot be typed (`/`, blanks inside a word) are skipped and counted.",
+         "DESIGN.md 4/C16"),
+ "C17": ("exploration",
+         ENUM + ": all registry units and shipped constants, random compounds/rationals/constants, CBOR and JSON round trips with byte-identical re-encoding",
+         "All 86 units: name -> Compound -> CBOR -> back, the written id equals the id documented in data.toml and a CBOR value hand-built from the documented id decodes to the same unit; all 878 shipped constants re-encode and decode equal; random compounds (built from documented ids), 2000-bit rationals (CBOR and JSON) and constants round-trip with identical bytes.",
+         "tools/gen/data.toml is the id registry (the stability oracle).",
+         "DESIGN.md 4/C17"),
+ "C18": ("exploration",
+         PBT + " (expressions mixing literals, quantities and fact phrases) plus history-based testing (shuffled query lists against one database instance)",
+         "Results with and without descriptions must be equal; descriptions must be exactly the phrases used (multiset, grouped per result; sub-multiset for failing results), each paired with the constant the phrase returns alone; the value must equal the reference evaluation with phrases replaced by those constants; every query of a history gives the same results in order, in reverse order on a fresh instance and on the long-lived shared instance.",
+         "Within one expression only the multiset of descriptions is required (the evaluator defines the order).",
+         "DESIGN.md 4/C18"),
+ "C19": ("exploration",
+         PBT + ": differential test of the `any` binary against the library, byte-for-byte stdout comparison in default and --exact mode",
+         "Queries from the other generators (values, units, pluralisable units with value 1 / not 1, denominator-only units, errors, facts, multi-result, noise) are run through the binary compiled from /repo/src/bin/any.rs; stdout must equal what the harness prints from library results and the exit status must be 0; the 12-digit rendering must also satisfy C08's oracle.",
+         "Diagnostics are rendered by the harness with the same codespan-reporting library; colours are disabled in the child (TERM=dumb, NO_COLOR).",
+         "DESIGN.md 4/C19"),
 }
 
-PENDING_REASON = "check not built yet in this session (planned with property-based testing per DESIGN.md section 4); not claimed until its machinery is committed"
+PENDING_REASON = "check not built yet (planned with property-based testing per DESIGN.md section 4); not claimed until its machinery is committed"
 
 def main():
     checks = []
